@@ -308,6 +308,7 @@ Lemma call_c12 : forall cfg lk now d caller req opts proc args kw oracle,
     | CallAbort o => noev o /\ noinv o
     | CallInvoked d' callee' o =>
         noev o /\ regs_kept d d' /\
+        (exists b rid det, o = [(s_id callee', RInvocation b rid det args kw)]) /\
         exists callee0, lk (s_id callee') = Some callee0 /\
                         (callee' = callee0 \/ exists n, callee' = set_invgen callee0 n)
     end.
@@ -338,6 +339,7 @@ Proof.
   - split; [apply noev_nil|]. split; [apply noinv_nil|apply rk_refl].
   - (* chunk *)
     split; [now apply noev_one|]. split; [apply rk_same; apply chs_regs|].
+    split; [do 3 eexists; reflexivity|].
     exists callee. split; [|now left]. rewrite (LOK _ _ Hl). exact Hl.
   - apply Hsame; reflexivity.
   - apply Hsame; reflexivity.
@@ -349,6 +351,7 @@ Proof.
     split; [now apply noev_one|]. split.
     + intros rid rg' H. rewrite cfs_regs in H. apply (call_d0_rk d r next (Hreg r Hm) rid rg').
       unfold call_d0. cbn [d_regs d_set_regs]. exact H.
-    + exists callee. cbn [set_invgen s_id]. split; [rewrite (LOK _ _ Hl); exact Hl|].
+    + split; [cbn [set_invgen s_id]; rewrite (LOK _ _ Hl); do 3 eexists; reflexivity|].
+      exists callee. cbn [set_invgen s_id]. split; [rewrite (LOK _ _ Hl); exact Hl|].
       right. eexists. reflexivity.
 Qed.
